@@ -104,3 +104,29 @@ func restoreDefaults(orig, rebuilt *schema.Schema) {
 		}
 	}
 }
+
+// keepsDefaults probes whether GetSchemaDefinition carries default values (fix patch 06): the model
+// is asked for the matching variant (`rebuildKeep` / `rebuild`).
+func keepsDefaults() bool {
+	d := &SDef{Types: []TypeDef{{Kind: "object", Name: "Query", Fields: []FieldDef{{Name: "d", Type: TRef{N: "Int"},
+		Args: []InputVal{{Name: "r", Type: TRef{W: "N", N: "Int"}, Def: &Val{K: "int", I: 1}}}}}}}, Query: "Query"}
+	_, s, err := safeBuild(d)
+	if err != nil {
+		return false
+	}
+	data, errs, crash := execIntro(s, nil)
+	if crash != "" || len(errs) > 0 {
+		return false
+	}
+	var result struct {
+		Schema introspection.SchemaData `json:"__schema"`
+	}
+	if json.Unmarshal(data, &result) != nil {
+		return false
+	}
+	def, err := result.Schema.GetSchemaDefinition()
+	if err != nil || def.Query == nil || def.Query.Fields["d"] == nil || def.Query.Fields["d"].Arguments["r"] == nil {
+		return false
+	}
+	return def.Query.Fields["d"].Arguments["r"].DefaultValue != nil
+}
